@@ -24,7 +24,7 @@ COMPONENTS = {"real": ["setigen.voltage.polyphase_filterbank (PolyphaseFilterban
 ASSUMPTIONS = ["scipy.signal.firwin is the documented window design (trusted)",
                "float comparison at 1e-10 of the largest attainable output magnitude"]
 PROBES = ["chunk_single_window", "reset_midstream", "nocache_between_feeds", "interleaved_objects",
-          "complex_input", "nonpow2_branches", "dtype_switch_after_reset", "noncontiguous_input"]
+          "complex_input", "nonpow2_branches", "dtype_switch_after_reset", "noncontiguous_input", "rejected_call"]
 
 WINDOWS = ["hamming", "hann", "boxcar", "blackman"]
 KINDS = ["gauss", "ints", "impulse", "ramp", "complex"]
@@ -85,6 +85,9 @@ def generate(rng, tier):
         elif r < 0.74:
             ops.append({"op": "nocache", "p": p, "k": rng.choice([1, 2, 3, 4]), "seed": rng.randrange(1 << 30),
                         "kind": rng.choice(KINDS[:4]), "layout": rng.choice(["c", "c", "stride2", "part"])})
+        elif r < 0.765:
+            # a call the filterbank must reject (no array at all); the stream must carry on as if it had not happened
+            ops.append({"op": "reject", "p": p, "arg": rng.choice(["none", "scalar"])})
         elif r < 0.79:
             ops.append({"op": "reset", "p": p})
         elif r < 0.82:
@@ -236,6 +239,17 @@ def execute(sc, ctx):
             same = (cache_before is None and o.cache is None) or (
                 cache_before is not None and o.cache is not None and np.array_equal(cache_before, o.cache))
             ctx.check(same, "cache", "C08/nocache_call_disturbs_stream", "cache changed by cache=False call")
+        elif op["op"] == "reject":
+            try:
+                o.channelize(None if op["arg"] == "none" else 5.0, cache=True)
+                raised = False
+            except Exception:
+                raised = True
+            ctx.event("reject", p, raised)
+            if raised:
+                ctx.fired("rejected_call")
+            else:
+                break        # accepted: outside the statement, stop judging this run
         elif op["op"] == "switch":
             o._reset_cache()
             total = sum(q.get("k", 0) for q in sc["ops"] if q["op"] == "feed") + 1
